@@ -65,7 +65,12 @@ def abstract(t: T.Any) -> T.Any:
         if fname == '_unholder' and len(args) == 1:
             return ('UNHOLD', abstract(args[0]))
         return ('call', fname, abstract(recv) if recv is not None else None, tuple(abstract(a) for a in args), tuple((k, abstract(v)) for k, v in t[5]))
-    if t and t[0] in ('const', 'name', 'expr'):
+    if t and t[0] == 'name' and isinstance(t[1], str):
+        parts = t[1].split('.')
+        if len(parts) > 2 and parts[-2] == 'MesonOperator':
+            return ('name', '.'.join(parts[-2:]))
+        return t
+    if t and t[0] in ('const', 'expr'):
         return t
     return tuple(abstract(x) if isinstance(x, tuple) else x for x in t)
 
@@ -112,6 +117,9 @@ class PathView:
                     self.evals.append(ab[1])
                 elif isinstance(ab, tuple) and ab[0] == 'OP':
                     self.ops.append(ab)
+                elif isinstance(ab, tuple) and ab[0] == 'call' and ab[1] == 'self.evaluate_statement':
+                    # a node computed at run time (conditional expression, local table ...): outside the idioms understood here
+                    raise Undecided(f'{ef.qn}: evaluates a computed node {fmt(ab)}')
         self.conds = [(abstract(ef.r(t)), v) for t, v in sp.conds()]
         self.result = abstract(ef.r(sp.result)) if sp.result is not None else None
         self.outcome = sp.outcome
@@ -239,6 +247,7 @@ def check_if(ctx: RuleCtx, name: str) -> None:
     ef = EvalFn(ctx, name, unroll=2)
     mod, qn = ef.mod, ef.qn
     n_taken = n_else = 0
+    seen_desc: T.Set[T.Tuple[str, bool]] = set()
     for sp in ef.paths:
         if sp.outcome == 'raise':
             continue
@@ -296,6 +305,9 @@ def check_if(ctx: RuleCtx, name: str) -> None:
         if any(s[0] == 'else' for s in seq):
             n_else += 1
         desc = ' '.join(f'{s[0]}{"=" + str(s[2]) if s[0] == "cond" else ""}' for s in seq) or '<nothing>'
+        if (desc, ok) in seen_desc:
+            continue
+        seen_desc.add((desc, ok))
         ctx.require(ok, f'{name}: [{desc}] follows first-true-clause-wins', mod, qn, f'if: sequence {desc}', f'evaluation sequence [{desc}]: {why}', sp.last_node)
     ctx.floor(f'{name}: paths taking a clause / the else block', min(n_taken, n_else), 1)
 
@@ -343,7 +355,8 @@ def check_foreach(ctx: RuleCtx, name: str) -> None:
     for cls, exc in (('ContinueNode', 'ContinueRequest'), ('BreakNode', 'BreakRequest')):
         a = arms.get(cls)
         ok = a is not None and a['raises'] == [exc] and not a['calls']
-        ctx.require(ok, f'{cls} raises {exc}', mod, 'InterpreterBase.evaluate_statement', f'{cls} arm', f'the arm of {cls} does {a}; reference: raise {exc}()', mod.func('InterpreterBase.evaluate_statement'))
+        did = 'nothing' if a is None else f'calls {[c[0] for c in a["calls"]]}, raises {a["raises"]}'
+        ctx.require(ok, f'{cls} raises {exc}', mod, 'InterpreterBase.evaluate_statement', f'{cls} arm', f'the arm of {cls}: {did}; reference: raise {exc}()', mod.func('InterpreterBase.evaluate_statement'))
 
 
 # ---------------------------------------------------------------------------
@@ -352,8 +365,8 @@ def check_foreach(ctx: RuleCtx, name: str) -> None:
 
 def dispatch_arms(ctx: RuleCtx) -> T.Dict[str, T.Dict[str, T.Any]]:
     """{node class: {'order': i, 'calls': [self.<method> called with the node], 'raises': [...], 'paths': n}} of evaluate_statement."""
-    cache = ctx.check.extra.setdefault('_c01_cache', {})
-    key = ('dispatch', id(ctx.repo))
+    cache = ctx.repo.__dict__.setdefault('_c01_cache', {})      # per Repo object (an overlay gets its own)
+    key = 'dispatch'
     if key in cache:
         return cache[key]
     mod = ctx.repo.module(IB)
@@ -390,6 +403,8 @@ def dispatch_arms(ctx: RuleCtx) -> T.Dict[str, T.Dict[str, T.Any]]:
         if sp.outcome == 'raise':
             r = sp.result
             arm['raises'].append(r[2].split('.')[-1] if is_call(r) else show(r))
+    if len([a for a in arms if a != '<else>']) < 8:
+        raise Undecided(f'evaluate_statement: only {len(arms)} isinstance arms recognised - the dispatch idiom is not the class-test chain this pack understands')
     cache[key] = arms
     return arms
 
@@ -560,6 +575,8 @@ def r5(ctx: RuleCtx) -> None:
             for k, v in zip(c.args[0].keys, c.args[0].values):
                 if k is not None:
                     reg[norm(k)] = norm(v).split('.')[-1]
+    if not reg:
+        raise Undecided('Interpreter.build_holder_map: no `self.holder_map.update({...})` dict display found')
     want = {'int': 'IntegerHolder', 'bool': 'BooleanHolder', 'str': 'StringHolder', 'list': 'ArrayHolder', 'dict': 'DictHolder'}
     for k, v in want.items():
         ctx.require(reg.get(k) == v, f'holder_map[{k}] = {v}', im, 'Interpreter.build_holder_map', f'holder for {k}', f'{k} values are held by {reg.get(k)}; reference {v}', bfn)
@@ -576,7 +593,7 @@ def r5(ctx: RuleCtx) -> None:
             nlook += 1
             c0 = calls[0]
             ok = c0[2] == 'self.holder_map.get' and c0[4] and is_call(c0[4][0], 'type') and c0[4][0][4] == (('name', p),)
-            if not ok:
+            if not ok and first is None:
                 first = c0
     ctx.floor('_holderify paths consulting the holder maps', nlook, 1)
     ctx.require(first is None, '_holderify looks the exact type(value) up first (bool is not held as int)', mod, 'InterpreterBase._holderify', 'exact-type lookup',
